@@ -21,7 +21,7 @@ from WallGo.exceptions import WallGoError
 
 from symx import core, npx
 from symx.core import AND, OR, NOT, Cond, Sym, eq, ge, gt, le, lt, ne
-from symx.harness import HarnessDef
+from symx.harness import HarnessDef, bare
 from props.hydrokit import ScipyStubs, tolerance_claims
 from props.c02 import make_hydro, arctan_axioms, flux_claims, gsq
 
@@ -100,7 +100,7 @@ def h_findvwlte(h, via_manager):
         return real_csq(T)
     th.csqHighT = csqHigh
     if via_manager:
-        m = MG.WallGoManager.__new__(MG.WallGoManager)
+        m = bare(MG.WallGoManager)
         m.hydrodynamics = hy
         out = m.wallSpeedLTE()
     else:
@@ -145,6 +145,39 @@ def _top(h, rs, hy, vtop):
 
 AX = [arctan_axioms]
 
+def h_manager_history(h):
+    """WallGoManager.wallSpeedLTE answers for the hydrodynamics of the CURRENT set-up: after the
+    manager is set up again (new Tn / parameters -> new thermodynamics and hydrodynamics objects,
+    through the real _initHydrodynamics) the LTE velocity is that of the new point, whatever was
+    asked before."""
+    import types
+    from WallGo.config import Config
+    built = []
+
+    class HydroSpy:
+        def __init__(self, thermodynamics, tmax, tmin, rtol, atol):
+            self.thermodynamics = thermodynamics
+            self.value = h.fresh("vwLTE", 0, 1, strict=False, default=0.3 + 0.2 * len(built))
+            self.asked = 0
+            built.append(self)
+
+        def findvwLTE(self):
+            self.asked += 1
+            return self.value
+    h.patch_always(MG, Hydrodynamics=HydroSpy)
+    m = bare(MG.WallGoManager)
+    m.config = Config()
+    for k in range(3):
+        Tn = h.real(f"Tn{k}", 0.5, 500, default=100.0 + k)
+        m.phasesAtTn = types.SimpleNamespace(temperature=Tn)
+        m._initHydrodynamics(types.SimpleNamespace(Tnucl=Tn, tag=k))
+        for rep in range(2 if k == 1 else 1):
+            out = m.wallSpeedLTE()
+            h.prove(f"set-up {k}, call {rep}: one hydrodynamics object per set-up, the manager holds the newest",
+                    Cond(b=len(built) == k + 1 and m.hydrodynamics is built[-1]))
+            h.prove_eq(f"set-up {k}, call {rep}: wallSpeedLTE = findvwLTE of the current hydrodynamics", out, built[-1].value)
+
+
 from props.c15 import h_maxal as _h_maxal, AX as _AX15
 import WallGo.hydrodynamicsTemplateModel as _HT
 
@@ -160,6 +193,8 @@ HARNESSES = [
                max_paths=400, timeout_s=60, axioms=AX,
                encodes=[HY.Hydrodynamics.findvwLTE, MG.WallGoManager.wallSpeedLTE],
                random_validation=0, concrete_alarms=False),
+    HarnessDef("manager-lte-history", h_manager_history, [dict()], max_paths=10, timeout_s=30,
+               encodes=[MG.WallGoManager.wallSpeedLTE, MG.WallGoManager._initHydrodynamics], random_validation=1),
 ]
 
 MANIFEST = {
